@@ -83,6 +83,7 @@ class Prog:
         self.sites = []          # fault sites: dict(kind, path, lo, hi, ...)
         self.features = set()
         self.order = []          # paths in the order they are indexed
+        self.parent = {}         # path -> including file
 
     def workspace(self):
         return {"files": dict(self.files), "root": self.root}
@@ -1156,6 +1157,7 @@ class Gen:
 
     # ------------------------------------------------------------------ files
     def open_file(self, path):
+        self.p.parent[path] = self.cur      # includer (None for the root)
         self.bufs[path] = []
         self.pos[path] = 0
         self.p.order.append(path)
@@ -1225,3 +1227,144 @@ def generate(rng, size=8, nfiles=None, probe=False, feats=None):
 
 def uses_llvm14_only(p):
     return not (p.features & LLVM14_MISSING)
+
+
+# ---------------------------------------------------------------------------------------------------------
+# single-fault seeder (C13)
+FAULT_CLASSES = ["undefined-class", "undefined-multiclass", "undefined-identifier", "undefined-include",
+                 "missing-template-argument", "surplus-template-argument", "incompatible-initialiser",
+                 "incompatible-argument", "operator-arity", "syntax-error"]
+
+VARIADIC = {"!add", "!mul", "!and", "!or", "!xor", "!con", "!listconcat", "!strconcat"}
+
+
+def wrong_literal(t):
+    """a literal whose type is convertible neither way to t"""
+    if t[0] in ("int", "bit", "bits", "list", "class", "dag"):
+        return '"wrong"'
+    return "7"           # string, code
+
+
+class Fault:
+    def __init__(self, kind, files, path, lo, hi, expect, check_files, note):
+        self.kind, self.files, self.path, self.lo, self.hi = kind, files, path, lo, hi
+        self.expect = expect            # message classes that count as reporting this fault
+        self.check_files = check_files  # files that must stay free of diagnostics
+        self.note = note
+
+
+def _splice(files, path, lo, hi, new):
+    b = files[path].encode("utf-8")
+    out = dict(files)
+    out[path] = (b[:lo] + new.encode("utf-8") + b[hi:]).decode("utf-8")
+    return out
+
+
+def _others(p, path, cascades):
+    """files that the fault does not touch: every other file; when the fault can make later declarations
+    disappear (unknown class in a type or parent position, missing include), only the files whose indexing was
+    complete before the faulty file was entered"""
+    if not cascades:
+        return [f for f in p.files if f != path]
+    anc = set()
+    f = path
+    while f is not None:
+        anc.add(f)
+        f = p.parent.get(f)
+    k = p.order.index(path)
+    return [f for f in p.order[:k] if f not in anc]
+
+
+def seed_faults(p, rng):
+    """one mutant per fault class that has an eligible site in [p] (a well-formed program)"""
+    out = []
+    sites = p.sites
+
+    def pick(pred):
+        c = [x for x in sites if pred(x)]
+        return rng.choice(c) if c else None
+
+    n = [0]
+
+    def undef():
+        n[0] += 1
+        return "Undef%d" % n[0]
+
+    x = pick(lambda x: x["kind"] in ("class-type", "class-parent", "class-value"))
+    if x:
+        nm = undef()
+        out.append(Fault("undefined-class", _splice(p.files, x["path"], x["lo"], x["hi"], nm), x["path"],
+                         x["lo"], x["lo"] + len(nm), ["ClassNotFound"],
+                         _others(p, x["path"], x["kind"] != "class-value"), x["kind"]))
+    x = pick(lambda x: x["kind"] == "multiclass-parent")
+    if x:
+        nm = undef()
+        out.append(Fault("undefined-multiclass", _splice(p.files, x["path"], x["lo"], x["hi"], nm), x["path"],
+                         x["lo"], x["lo"] + len(nm), ["MulticlassNotFound"], _others(p, x["path"], True), ""))
+    x = pick(lambda x: x["kind"] == "ident")
+    if x:
+        nm = undef()
+        out.append(Fault("undefined-identifier", _splice(p.files, x["path"], x["lo"], x["hi"], nm), x["path"],
+                         x["lo"], x["lo"] + len(nm), ["SymbolNotFound"], _others(p, x["path"], False), ""))
+    x = pick(lambda x: x["kind"] == "include")
+    if x:
+        new = 'include "missing_%d.td"' % rng.randrange(100)
+        files = _splice(p.files, x["path"], x["lo"], x["hi"], new)
+        out.append(Fault("undefined-include", files, x["path"], x["lo"], x["lo"] + len(new), ["IncludeNotFound"],
+                         _others(p, x["path"], True), ""))
+    refs = [x for x in sites if x["kind"] in ("class-parent", "class-value", "multiclass-parent") and x.get("args")]
+    # missing: drop every argument when a required one exists
+    c = [x for x in refs if any(not a[2] for a in x["args"]["targs"]) and x["args"]["open"] is not None]
+    if c:
+        x = rng.choice(c)
+        a = x["args"]
+        if x["kind"] == "class-value":      # `C<>`: without the brackets it would be an identifier, not a class value
+            files = _splice(p.files, x["path"], a["open"], a["close"], "")
+        else:
+            files = _splice(p.files, x["path"], a["open"] - 1, a["close"] + 1, "")
+        out.append(Fault("missing-template-argument", files, x["path"], x["lo"], x["hi"], ["ArgMissing"],
+                         _others(p, x["path"], False), x["kind"]))
+    if refs:
+        x = rng.choice(refs)
+        a = x["args"]
+        extra = ", ".join(["0"] * (len(a["targs"]) - a["n"] + 1))
+        if a["open"] is None:
+            files = _splice(p.files, x["path"], x["hi"], x["hi"], "<" + extra + ">")
+            lo, hi = x["hi"] + 1, x["hi"] + 1 + len(extra)
+        else:
+            ins = (", " if a["n"] else "") + extra
+            files = _splice(p.files, x["path"], a["close"], a["close"], ins)
+            lo, hi = a["close"] + len(ins) - len(extra), a["close"] + len(ins)
+        out.append(Fault("surplus-template-argument", files, x["path"], lo, hi, ["TooManyArgs"],
+                         _others(p, x["path"], False), x["kind"]))
+    x = pick(lambda x: x["kind"] == "init")
+    if x:
+        new = wrong_literal(x["ty"])
+        out.append(Fault("incompatible-initialiser", _splice(p.files, x["path"], x["lo"], x["hi"], new), x["path"],
+                         x["lo"], x["lo"] + len(new), ["FieldIncompat"], _others(p, x["path"], False), ty_text(x["ty"])))
+    c = [(x, sp) for x in refs for sp in x["args"].get("spans", [])]
+    if c:
+        x, (lo, hi, vlo, at) = rng.choice(c)
+        new = wrong_literal(at)
+        out.append(Fault("incompatible-argument", _splice(p.files, x["path"], vlo, hi, new), x["path"],
+                         vlo, vlo + len(new), ["ArgType"], _others(p, x["path"], False), ty_text(at)))
+    x = pick(lambda x: x["kind"] == "bang" and x.get("spans"))
+    if x:
+        if x["op"] in VARIADIC:
+            first_hi = x["spans"][0][1]
+            last_hi = x["spans"][-1][1]
+            files = _splice(p.files, x["path"], first_hi, last_hi, "")
+            hi = x["hi"] - (last_hi - first_hi)
+        else:
+            last_hi = x["spans"][-1][1]
+            files = _splice(p.files, x["path"], last_hi, last_hi, ", 0, 0, 0")
+            hi = x["hi"] + 9
+        out.append(Fault("operator-arity", files, x["path"], x["lo"], hi, ["Arity"],
+                         _others(p, x["path"], False), x["op"]))
+    x = pick(lambda x: x["kind"] == "stmt-boundary")
+    if x:
+        junk = rng.choice([") ", "] ", "= ", "> "])
+        out.append(Fault("syntax-error", _splice(p.files, x["path"], x["lo"], x["lo"], junk), x["path"],
+                         x["lo"], x["lo"] + 1, ["Syntax"], _others(p, x["path"], False),
+                         "root" if x["path"] == p.root else "included"))
+    return out
